@@ -35,7 +35,7 @@ func FocusFilter(p *core.Program, r *core.Report, rule string) {
 		if !pos.IsValid() {
 			continue
 		}
-		why, ok := readers[fd.Obj.Name()]
+		why, ok := readers[core.RefName(fd.Obj)]
 		r.Check(ok, rule+"-read", fd.Key()+": reads the focus-workload option", p.Pos(pos), why, "the focus option is read outside the filter predicate and the existence check: the computed connections could depend on it (it must be a pure filter of the full report)")
 	}
 	r.Floor(rule+"-read", 3)
@@ -78,8 +78,8 @@ func FocusFilter(p *core.Program, r *core.Report, rule string) {
 			if !pos.IsValid() {
 				continue
 			}
-			why, ok := plReaders[fd.Obj.Name()]
-			if fd.Obj.Name() == "getConnectionsList" {
+			why, ok := plReaders[core.RefName(fd.Obj)]
+			if core.RefName(fd.Obj) == "getConnectionsList" {
 				// only `ca.peersList = ...` and `ca.peersList = append(ca.peersList, ...)`
 				allowed := map[ast.Node]bool{}
 				ast.Inspect(fd.Decl.Body, func(n ast.Node) bool {
@@ -204,7 +204,7 @@ func FocusFilter(p *core.Program, r *core.Report, rule string) {
 				return
 			}
 			for _, a := range facts.Atoms(f) {
-				if strings.Contains(a, "."+pred.Obj.Name()) && (facts.Entails(f, facts.Atom(a)) || facts.Entails(f, facts.Not{X: facts.Atom(a)})) {
+				if strings.Contains(a, "."+core.RefName(pred.Obj)) && (facts.Entails(f, facts.Atom(a)) || facts.Entails(f, facts.Not{X: facts.Atom(a)})) {
 					bad = "the call of " + core.FuncKey(fn) + " at " + p.Pos(c.Pos()) + " runs only under " + facts.StripVersions(a)
 				}
 			}
@@ -295,13 +295,13 @@ func FocusFilter(p *core.Program, r *core.Report, rule string) {
 			nExit++
 			none := facts.Formula(facts.Atom("focus:none"))
 			for _, a := range facts.Atoms(f) {
-				if strings.HasPrefix(a, "empty:") && strings.HasSuffix(facts.StripVersions(a), "."+fld.Name()) {
+				if strings.HasPrefix(a, "empty:") && strings.HasSuffix(facts.StripVersions(a), "."+core.RefName(fld)) {
 					none = facts.Or{L: none, R: facts.Atom(a)}
 				}
 			}
 			ans := w.Cond(ret.Results[0])
 			for _, a := range facts.Atoms(ans) {
-				if strings.HasPrefix(a, "empty:") && strings.HasSuffix(facts.StripVersions(a), "."+fld.Name()) {
+				if strings.HasPrefix(a, "empty:") && strings.HasSuffix(facts.StripVersions(a), "."+core.RefName(fld)) {
 					none = facts.Or{L: none, R: facts.Atom(a)}
 				}
 			}
@@ -332,7 +332,7 @@ func FocusFilter(p *core.Program, r *core.Report, rule string) {
 			if v, isC := core.ConstString(info, ret.Results[0]); isC && v == "false" {
 				// an exclusion - unless it is reached because of the focus predicate
 				for _, a := range facts.Atoms(f) {
-					if strings.Contains(a, "."+pred.Obj.Name()+"(") && (facts.Entails(f, facts.Atom(a)) || facts.Entails(f, facts.Not{X: facts.Atom(a)})) {
+					if strings.Contains(a, "."+core.RefName(pred.Obj)+"(") && (facts.Entails(f, facts.Atom(a)) || facts.Entails(f, facts.Not{X: facts.Atom(a)})) {
 						goto judged
 					}
 				}
@@ -343,10 +343,10 @@ func FocusFilter(p *core.Program, r *core.Report, rule string) {
 			var ps, pd facts.Formula = facts.False{}, facts.False{}
 			ans := w.Cond(ret.Results[0])
 			for _, a := range append(facts.Atoms(f), facts.Atoms(ans)...) {
-				if strings.HasPrefix(a, "b:") && strings.HasSuffix(a, "."+pred.Obj.Name()+"("+w.PathOfVar(src)+")") {
+				if strings.HasPrefix(a, "b:") && strings.HasSuffix(a, "."+core.RefName(pred.Obj)+"("+w.PathOfVar(src)+")") {
 					ps = facts.Atom(a)
 				}
-				if strings.HasPrefix(a, "b:") && strings.HasSuffix(a, "."+pred.Obj.Name()+"("+w.PathOfVar(dst)+")") {
+				if strings.HasPrefix(a, "b:") && strings.HasSuffix(a, "."+core.RefName(pred.Obj)+"("+w.PathOfVar(dst)+")") {
 					pd = facts.Atom(a)
 				}
 			}
@@ -687,7 +687,7 @@ func WorkloadExpansion(p *core.Program, r *core.Report, rule string) {
 			}
 			return nil, false
 		}(); isC && len(c.Args) == 1 {
-			if fn := core.Callee(info, c); fn != nil && fn.Name() == "getReplicas" {
+			if fn := core.Callee(info, c); fn != nil && core.RefName(fn) == "getReplicas" {
 				a := core.ExprStr(c.Args[0])
 				okRep = a == objName+".Spec.Replicas" || a == objName+".Spec.Parallelism"
 			}
@@ -762,7 +762,7 @@ func WorkloadExpansion(p *core.Program, r *core.Report, rule string) {
 		var call *ast.CallExpr
 		ast.Inspect(pf.Decl.Body, func(n ast.Node) bool {
 			if c, ok := n.(*ast.CallExpr); ok {
-				if fn := core.Callee(pinfo, c); fn != nil && fn.Name() == "addPodOwner" {
+				if fn := core.Callee(pinfo, c); fn != nil && core.RefName(fn) == "addPodOwner" {
 					call = c
 				}
 			}
@@ -825,7 +825,7 @@ func WorkloadExpansion(p *core.Program, r *core.Report, rule string) {
 		ast.Inspect(sfd.Decl.Body, func(n ast.Node) bool {
 			if c, ok := n.(*ast.CallExpr); ok {
 				if fn := core.Callee(sinfo, c); fn != nil && p.IsModuleFunc(fn) {
-					calls[fn.Name()] = true
+					calls[core.RefName(fn)] = true
 				}
 			}
 			return true
@@ -843,7 +843,7 @@ func WorkloadExpansion(p *core.Program, r *core.Report, rule string) {
 			if as, isAs := n.(*ast.AssignStmt); isAs && len(as.Lhs) == 1 {
 				if ix, isIx := ast.Unparen(as.Lhs[0]).(*ast.IndexExpr); isIx {
 					if c, isC := ast.Unparen(ix.Index).(*ast.CallExpr); isC {
-						if fn := core.Callee(cinfo, c); fn != nil && fn.Name() == "String" {
+						if fn := core.Callee(cinfo, c); fn != nil && core.RefName(fn) == "String" {
 							if se, isSe := ast.Unparen(c.Fun).(*ast.SelectorExpr); isSe && core.ExprStr(se.X) == core.ExprStr(as.Rhs[0]) {
 								ok = true
 							}
@@ -945,7 +945,7 @@ func WorkloadIdentity(p *core.Program, r *core.Report, rule string) {
 		if !ok {
 			return true
 		}
-		if f := core.FieldOf(info, ix.X); f == nil || f.Name() != "podsMap" {
+		if f := core.FieldOf(info, ix.X); f == nil || core.RefName(f) != "podsMap" {
 			return true
 		}
 		keyPos = as.Pos()
